@@ -19,6 +19,7 @@ RULE = ('Hypothesis write requests: 1-3 tables (1-5 columns of i2/i4/i8/f4/f8/S<
         'header text.  Non-trivial = >=1 row and one of: string needing quotes, extreme integer, non-finite / denormal / '
         'huge float, array column, enum, >=2 tables, header pair, unicode column.  Distinct = distinct case hash.')
 RULE += "  Also: header keywords that are the parser's own words (struct, enum, symbols), array columns of length 10/12, big-endian record arrays, comments as str/list."
+RULE += ' Round 5: numeric columns sharing the name of an enum column of another table; form feed / vertical tab / FS / RS inside texts.'
 ASSUMPTIONS = [
     'texts the format cannot express are not generated: double quote, leading {, } inside string-array elements, {{}}-like '
     'substring (the format notation for the empty string), backslash ending the last column or a header value, non-ASCII, NUL, '
